@@ -14,7 +14,8 @@ What a call does (`call`):
 2. an ordinary procedure gets a fresh activation environment: the parameter slots hold the argument values,
    every other slot (locals, result variable) holds zero / the empty string — also for a recursive activation;
    a STATIC procedure has ONE environment for the whole run (`St.statics f`, all zero at the start): a call
-   rebinds the parameter slots in it and leaves every other slot as the previous activation left it — a
+   rebinds the parameter slots in it, resets the result variable of a FUNCTION to zero / empty and leaves every
+   other slot as the previous activation left it — a
    recursive activation works on the same environment (so the outer activation finds its parameters and
    locals as the inner one left them);
 3. the body runs in that environment; `DIM SHARED` variables (`St.glob`) are one store for all scopes;
@@ -137,11 +138,19 @@ def writeBack : Args → Nat → List Val → St → St
     writeBack rest (i + 1) callee (s.set x (callee.getD i (zeroOf t)))
   | .cons _ _ _ rest, i, callee, s => writeBack rest (i + 1) callee s
 
-/-- the state in which the body of `d` (procedure `f`) starts, `s1` = the caller's state after the arguments -/
-def enter (d : ProcDecl Stmt) (f : Nat) (vals : List Val) (s1 : St) : St :=
+/-- the callee's activation with the parameters bound, `s1` = the caller's state after the arguments -/
+def enterCore (d : ProcDecl Stmt) (f : Nat) (vals : List Val) (s1 : St) : St :=
   if d.static then
     { s1 with self := some f, statics := fun g => if g = f then rebind (s1.statics f) vals else s1.statics g }
   else { s1 with self := none, env := freshEnv d.slots vals }
+
+/-- the state in which the body of `d` (procedure `f`) starts: the result variable of a STATIC FUNCTION is not one of
+the variables that persist — every call starts with the result at zero / the empty string (for an ordinary FUNCTION the
+fresh environment has it at zero anyway) -/
+def enter (d : ProcDecl Stmt) (f : Nat) (vals : List Val) (s1 : St) : St :=
+  match d.static, d.result with
+  | true, some rt => (enterCore d f vals s1).set ⟨false, d.resultSlot⟩ (zeroOf rt)
+  | _, _ => enterCore d f vals s1
 
 /-- does the body's outcome let the call return? -/
 def returns : Outcome → Bool
